@@ -126,6 +126,30 @@ def impl(c):
             except BaseException as e: A.append("read_json returned an object whose getters raise (%s) on %s at %d: %r" % (type(e).__name__, what, pos, data[max(0, pos - 30):pos + 30])); continue
             if cn is not None and not cn["wf"]: A.append("read_json returned an ill-formed object (non-integer or inconsistent) on %s at %d: ...%r..." % (what, pos, data[max(0, pos - 30):pos + 30]))
             out["counts"]["json_none" if cn is None else "json_obj"] += 1
+        # 4. history: the object that has just been saved is modified in place and saved again - every format must show the object as it is NOW
+        try:
+            from chipfiring.CFOrientation import OrientationState
+            from chipfiring.CFGraph import Vertex
+            if kind == "graph" and n >= 2:
+                if G["edges"]: a, b, _ = G["edges"][0]; obj.add_edge(names[b], names[a], 2)
+                non = [(a, b) for a in range(n) for b in range(a + 1, n) if not any(e[0] == a and e[1] == b for e in G["edges"])]
+                if non: obj.add_edge(names[non[0][0]], names[non[0][1]], 1)
+            elif kind == "divisor" and n >= 1:
+                obj.lending_move(names[0]); obj.chip_transfer(names[0], names[-1], 3) if n >= 2 else None
+            elif kind == "firingscript" and n >= 1:
+                obj.set_firings(names[0], obj.get_firings(names[0]) + 5); obj.update_firings(names[-1], -2)
+            elif kind == "orientation" and c["ori"]:
+                a, b = c["ori"][0]; obj.set_orientation(Vertex(names[a]), Vertex(names[b]), OrientationState.SINK_TO_SOURCE)      # flip an oriented edge
+                if len(c["ori"]) > 1: a, b = c["ori"][1]; obj.set_orientation(Vertex(names[b]), Vertex(names[a]), OrientationState.SOURCE_TO_SINK)
+                if len(c["ori"]) > 2: a, b = c["ori"][2]; obj.set_orientation(Vertex(names[a]), Vertex(names[b]), OrientationState.NO_ORIENTATION)
+            now = strip(_canon(G, kind, obj))
+            b2 = cls.from_dict(json.loads(json.dumps(obj.to_dict())))
+            if strip(_canon(G, kind, b2)) != now: A.append("dict round trip after an in-place modification shows a stale object: %s, the object is %s" % (strip(_canon(G, kind, b2)), now))
+            pj2, pt2 = os.path.join(td, "o2.json"), os.path.join(td, "o2.txt")
+            dp.to_json(obj, pj2); dp.to_txt(obj, pt2); bj2 = dp.read_json(pj2, kind); bt2 = dp.read_txt(pt2, kind)
+            if bj2 is None or strip(_canon(G, kind, bj2)) != now: A.append("JSON round trip after an in-place modification differs: %s, the object is %s" % (None if bj2 is None else strip(_canon(G, kind, bj2)), now))
+            if names_ok and (bt2 is None or strip(_canon(G, kind, bt2)) != now): A.append("TXT round trip after an in-place modification differs: %s, the object is %s" % (None if bt2 is None else strip(_canon(G, kind, bt2)), now))
+        except Exception as e: A.append("save / modify / save history raised %s: %s" % (type(e).__name__, str(e)[:100]))
         # missing file
         for f, k in ((dp.read_json, "j"), (dp.read_txt, "t")):
             try:
